@@ -43,6 +43,18 @@ def curve(name):
         with repo.quiet():
             if isinstance(name, str) and name in MIXED:
                 _curve_cache[key] = mixed_curve(P, name)
+            elif name == 'Bessel':
+                # tangent angle theta(s) = s + a sin 2s, a = 0.45: cos theta = sum_k J_k(a) cos((1 + 2k) s) (Jacobi-Anger),
+                # integrated term by term; one piece of length 2 pi, exactly arc-length parametrised, curvature not constant
+                from scipy.special import jv
+                ks = np.arange(-25, 26)
+                co = jv(ks, 0.45) / (1 + 2 * ks)
+
+                def bessel(x_hat):
+                    xa = np.atleast_1d(np.asarray(x_hat, dtype=float))
+                    ph = np.outer(1 + 2 * ks, xa)
+                    return np.vstack([co @ np.sin(ph), -(co @ np.cos(ph))])
+                _curve_cache[key] = P.PiecewiseParametrization([0, 2 * np.pi], [bessel])
             elif name == 'Circle2':
                 # a circle of radius 2 as one piece of length 4 pi
                 _curve_cache[key] = P.PiecewiseParametrization(
